@@ -4,7 +4,7 @@
    [handle_v original] is the code as found. [lv] stands for the parsers of
    external crates that the model does not re-state (quantified over). *)
 From Coq Require Import NArith List Bool.
-From RV Require Import Http.DispatchText Http.DispatchModel Http.DispatchProofs Http.ConcModel Http.ConcProofs.
+From RV Require Import Http.DispatchText Http.DispatchModel Http.DispatchProofs Http.ConcModel Http.ConcProofs Http.WireModel Http.WireProofs.
 Import ListNotations.
 Local Open Scope N_scope.
 
@@ -297,3 +297,62 @@ Theorem C12_statelock_abort_refuted :
   ls_owner s1 = None /\ ls_val s1 = None /\ nth_error (ls_thr s) 0 = Some (THandler [] HIdle true).
 Proof. exact statelock_abort_refuted. Qed.
 Print Assumptions C12_statelock_abort_refuted.
+
+(* ================================================================ the wire: bytes on a TCP connection
+   Http/WireModel.v re-states what sits between the socket and Server::handle_request: httparse's request parser,
+   hyper 0.14's Server::parse (method, request-target via http::Uri, header table, Transfer-Encoding /
+   Content-Length / Connection) and, per connection, the sequence of requests ([wire_conn]: all bytes a client
+   sends -> what happens, request by request). Engine c12tcp runs it against the real server over loopback TCP. *)
+
+(* Whatever bytes arrive: a request that hyper hands to rotonda's handler is one the dispatch model accepts -
+   every theorem above that assumes [request_ok] covers everything that can come in over the wire.
+   ([request_ok] had to learn the asterisk-form and authority-form request-targets for this to hold: found with
+   the engine, `GET * HTTP/1.1` and `GET status HTTP/1.1` are delivered with the paths "*" and "".) *)
+Theorem C12_wire_delivered_is_acceptable : forall l d rest,
+  wire_parse l = WOk d rest -> request_ok (dl_req d) = true.
+Proof. exact wire_delivered_request_ok. Qed.
+Print Assumptions C12_wire_delivered_is_acceptable.
+
+(* ... and the other direction for origin-form targets: under any method token the http crate takes, a path that
+   starts with '/' and a query made of the bytes [request_ok] allows (up to hyper's 65534 bytes) IS delivered, as
+   exactly that request, keep-alive, whatever follows on the connection. *)
+Theorem C12_wire_origin_form_delivered : forall m p q rest,
+  m <> [] -> forallb method_char m = true ->
+  starts_with [47] p = true -> forallb path_byte_ok p = true -> query_ok q = true ->
+  blen (p ++ qpart q) <= max_uri_len ->
+  wire_parse (render_origin m p q ++ [13; 10] ++ rest) =
+    WOk (MkDel m (MkReq (if beqb m k_get then 0 else 1) p q []) true false) rest.
+Proof. exact wire_origin_form_delivered. Qed.
+Print Assumptions C12_wire_origin_form_delivered.
+
+(* A byte the http crate does not take in a path is refused by the request-target parser ('?' and '#' end the path). *)
+Theorem C12_wire_bad_path_byte_refused : forall pre b post, forallb path_byte_ok pre = true ->
+  path_byte_ok b = false -> (b =? 63) = false -> (b =? 35) = false ->
+  uri_parse (47 :: pre ++ b :: post) = None.
+Proof. exact uri_parse_origin_refuses. Qed.
+Print Assumptions C12_wire_bad_path_byte_refused.
+
+(* Every answer on every connection, for all bytes and every configuration: rotonda's handler answers with a status
+   of its classification (no Panic, no Rejected), or hyper answers 400 / 414 / 431 itself, or the connection ends /
+   is outside the model (a request body was announced, HTTP/2 preface). *)
+Theorem C12_wire_total_and_classified : forall lv c l,
+  Forall (answer_classified c) (map (answer_of lv c) (wire_conn l)).
+Proof. exact wire_conn_classified. Qed.
+Print Assumptions C12_wire_total_and_classified.
+
+Theorem C12_wire_never_panics : forall lv c l, ~ In (AResp Panic) (map (answer_of lv c) (wire_conn l)).
+Proof. exact wire_never_panics. Qed.
+Print Assumptions C12_wire_never_panics.
+
+(* The follow-up of every case: `GET /status HTTP/1.1` on a new connection is delivered and answered 200 under every
+   configuration (the model keeps no state between connections: nothing sent earlier can change this). *)
+Theorem C12_wire_keeps_answering : forall lv c,
+  exists d gz, wire_conn status_request = [EDeliver d; EWait] /\ handle lv c (dl_req d) = Resp 200 gz.
+Proof. exact wire_status_answers. Qed.
+Print Assumptions C12_wire_keeps_answering.
+
+(* non-vacuity: a pipelined connection - a delivered GET with a query, a request hyper refuses (space in the target):
+   the first is answered by the handler, the second by hyper's 400, then the connection is over *)
+Example C12_wire_example :
+  map (answer_of lv0 cfg_rib) (wire_conn example_conn) = [AResp (Resp 400 false); AHyper 400].
+Proof. vm_compute. reflexivity. Qed.
